@@ -238,6 +238,104 @@ func (t *Target) extElem(r *prng.Rng, x ExtVar, ptr bool) interface{} {
 	return nil
 }
 
+// isRepeatedExt: the runtime holds the extension's value as a slice of elements ([]int32, [][]byte, []*M)
+func isRepeatedExt(x ExtVar) bool {
+	et := extGoType(x.Desc)
+	return et != nil && et.Kind() == reflect.Slice && !(x.Kind == "bytes" && et.Elem().Kind() == reflect.Uint8)
+}
+
+// extsByGoType: the target's generated extension descriptors, keyed by the Go type (*M) of the message they extend
+func (t *Target) extsByGoType() map[reflect.Type][]ExtVar {
+	if t.extsOfType == nil {
+		t.extsOfType = map[reflect.Type][]ExtVar{}
+		for _, x := range t.Exts {
+			if f, ok := t.Messages[x.Extendee]; ok {
+				ty := reflect.TypeOf(f.New())
+				t.extsOfType[ty] = append(t.extsOfType[ty], x)
+			}
+		}
+	}
+	return t.extsOfType
+}
+
+// emptyRepeatedExtensions: a repeated extension that the message does not carry is SET — through the owning runtime's own
+// SetExtension — to an empty, non-nil list ([]int32{}, []*M{}), on m itself and on the messages held inside it (singular
+// fields, list elements, map values, oneof members, message-valued extensions that are set). A list without elements
+// holds nothing: the message means what it meant before (the reference value does not change) and not one byte may be
+// written for it, but the runtimes differ in what they answer afterwards: Gogo / golang v1 HasExtension say "set",
+// google v2 says "not set". force: every such extension of m itself; otherwise each with probability 1/2.
+// It returns what was set (for the case label).
+func (t *Target) emptyRepeatedExtensions(r *prng.Rng, m interface{}, force bool) []string {
+	byType := t.extsByGoType()
+	if len(byType) == 0 {
+		return nil
+	}
+	api := apiFor(t.Runtime)
+	var done []string
+	var walk func(v reflect.Value, depth int, path string)
+	walk = func(v reflect.Value, depth int, path string) {
+		if depth > 4 {
+			return
+		}
+		switch v.Kind() {
+		case reflect.Interface:
+			if !v.IsNil() {
+				walk(v.Elem(), depth, path)
+			}
+		case reflect.Slice:
+			if v.Type().Elem().Kind() == reflect.Ptr {
+				for j := 0; j < v.Len(); j++ {
+					walk(v.Index(j), depth+1, fmt.Sprintf("%s[%d]", path, j))
+				}
+			}
+		case reflect.Map:
+			if v.Type().Elem().Kind() == reflect.Ptr {
+				keys := v.MapKeys()
+				sort.Slice(keys, func(a, b int) bool { return fmt.Sprint(keys[a].Interface()) < fmt.Sprint(keys[b].Interface()) })
+				for _, k := range keys {
+					walk(v.MapIndex(k), depth+1, fmt.Sprintf("%s[%v]", path, k.Interface()))
+				}
+			}
+		case reflect.Ptr:
+			if v.IsNil() || v.Elem().Kind() != reflect.Struct || !v.CanInterface() {
+				return
+			}
+			msg := v.Interface()
+			for _, x := range byType[v.Type()] {
+				x := x
+				switch {
+				case isRepeatedExt(x) && !api.has(msg, x.Desc):
+					if !(force && depth == 0) && !r.Chance(1, 2) {
+						continue
+					}
+					var err error
+					if p := safeCall(func() { err = api.set(msg, x.Desc, reflect.MakeSlice(extGoType(x.Desc), 0, 0).Interface()) }); p == "" && err == nil {
+						done = append(done, path+x.Name)
+					}
+				case strings.HasPrefix(x.Kind, "msg:") && api.has(msg, x.Desc):
+					var val interface{}
+					if p := safeCall(func() { val, _ = api.get(msg, x.Desc) }); p == "" && val != nil {
+						walk(reflect.ValueOf(val), depth+1, path+x.Name+".")
+					}
+				}
+			}
+			sv := v.Elem()
+			for i := 0; i < sv.NumField(); i++ {
+				sf := sv.Type().Field(i)
+				if sf.PkgPath != "" || strings.HasPrefix(sf.Name, "XXX_") {
+					continue
+				}
+				switch sf.Type.Kind() {
+				case reflect.Ptr, reflect.Slice, reflect.Map, reflect.Interface:
+					walk(sv.Field(i), depth+1, path+sf.Name+".")
+				}
+			}
+		}
+	}
+	walk(reflect.ValueOf(m), 0, "")
+	return done
+}
+
 func derefType(t reflect.Type) reflect.Type {
 	for t.Kind() == reflect.Ptr {
 		t = t.Elem()
